@@ -15,7 +15,7 @@
   (scalar arms hand-modelled inside `runInstr`), unary-operator lowering,
   control flow, T4 `dce_preserves`, T5 `lower_correct`.
 -/
-import RotoV.Lemmas.Scalar
+import RotoV.Lemmas.ScalarLower
 
 namespace RotoV.C01
 open RotoV RotoV.Gen RotoV.Gen.OpTables
@@ -148,7 +148,7 @@ example : cmpSpec .Gt (RInt.val (‚ü®0xFFFFFFFF#32‚ü© : U32)) (RInt.val (‚ü®1#32‚
 /-! ## T2: unary operators -/
 
 /-- **T2.**  `-x` (generated `Negate` arm, `ineg`) is two's-complement negation: the `Int` negation
-    wrapped to the type (so `-MIN = MIN`); the language admits it on the signed types, the statement
+    wrapped to the type (so `-MIN = MIN`); the language allows it on the signed types, the statement
     holds at every integer type.  `!b` (generated `Not` arm, `icmp_imm eq b, 0`) is logical negation
     on the two bit patterns `jitRepr` gives a boolean. -/
 theorem unary_correct (dbg : Bool) :
